@@ -31,6 +31,17 @@ const (
 	zzClose
 )
 
+// VerifReportProceeds: C04. Every report command proceeds on exactly the journals
+// check accepts: balance (with and without a --from/--to window, valued or not)
+// returns an error iff check does.
+func VerifReportProceeds() {
+	zzVerdictOnly = true
+	defer func() { zzVerdictOnly = false }()
+	VerifCheckIff()
+}
+
+var zzVerdictOnly bool
+
 // VerifCheckIff: C04. k directive slots; kind per slot is a parameter
 // (enumerated by the driver); account, commodity, day are choice variables;
 // booked and asserted quantities are symbolic decimals.
@@ -82,6 +93,21 @@ func VerifCheckIff() {
 	}
 	var r checkRunner
 	_, err := zzRun(build, func(cmd *cobra.Command, args []string) error { return r.execute(cmd, args) })
+	if zzVerdictOnly {
+		var br balanceRunner
+		switch v.Param("window") {
+		case 1:
+			br.Multiperiod.ZZSet("2020-02-01", "2999-12-31", 0, 0, false)
+		case 2:
+			br.Multiperiod.ZZSet("", "2020-01-31", 0, 0, false)
+		default:
+			br.Multiperiod.ZZSet("", "2999-12-31", 0, 0, false)
+		}
+		br.sortAlphabetically = true
+		_, berr := zzReport(&br, build)
+		v.Assert((berr == nil) == (err == nil), "balance-proceeds-iff-check-accepts")
+		return
+	}
 
 	// reference lifecycle model: by day; within a day opens -> bookings -> assertions -> closes, arrival order inside
 	open := [2]bool{}
